@@ -1,4 +1,5 @@
 """C16 — --stop-on-error stops after the first bad outcome, still cleans up."""
+import collections
 import itertools
 
 from vt import monitors
@@ -43,13 +44,50 @@ OPTS = {
 
 
 def _o_filter(case):
-    return case[4] in ('x', 'x+rep', 'x+nie') and case[0] <= 2
+    return case[0] != 'xj' and case[4] in ('x', 'x+rep', 'x+nie') and case[0] <= 2
 
 
 ENV_PASSES = [{'name': 'python -O', 'argv': ['-O'], 'env': {}, 'filter': _o_filter}]
 
 
+def run_xj_case(v):
+    """Real processes, -x -j2: the failing test of layer A only fails once a
+    slow test of layer B is running in the sibling process.  Whatever the
+    parent does about B, the layers B's process set up are torn down and its
+    summary is printed."""
+    layers = [{'n': L, 'b': [], 'k': 'c', 'h': list(worlds.HOOKS_SD)} for L in 'ABC']
+    tests = [{'n': 'a0', 'l': 'A', 's': 'fail', 'acts': [['wait', 'b_running', 30]]},
+             {'n': 'a1', 'l': 'A', 's': 'pass'},
+             {'n': 'b0', 'l': 'B', 's': 'pass', 'acts': [['touch', 'b_running'], ['wait', 'never', 2]], 'e': None},
+             {'n': 'b1', 'l': 'B', 's': 'pass'},
+             {'n': 'c0', 'l': 'C', 's': 'pass'}]
+    # b0 waits 2 s for a file that never comes: its barrier "timeout" is an
+    # AssertionError, i.e. B has a failing test of its own after 2 s
+    spec = {'layers': layers, 'tests': tests}
+    res = runrt.run_cli(spec, ['-x', '-j2'] + (['-' + 'v' * v] if v else []), timeout=120)
+    viol = []
+    sig = {'kind': 'fail', 'opt': 'x+j2 real'}
+    ups = collections.Counter()
+    for ev in res.trace:
+        if ev[1] == 'L' and ev[4] == '<':
+            if ev[3] == 'setUp':
+                ups[(ev[0], ev[2])] += 1
+            elif ev[3] == 'tearDown':
+                ups[(ev[0], ev[2])] -= 1
+    left = {k: n for k, n in ups.items() if n}
+    d = 'real processes, -x -j2 -v%d, layer A fails while a test of layer B is running: ' % v
+    if left:
+        viol.append({'clause': 'layer_not_torn_down', 'sig': sig, 'detail': d + 'set up and never torn down (pid, layer): %s\n%s' % (sorted(left), res.text[-800:])})
+    if res.rc != 1:
+        viol.append({'clause': 'verdict_not_failed', 'sig': sig, 'detail': d + 'exit status %r' % (res.rc,)})
+    if not runrt.TOTAL_RE.search(res.text):
+        viol.append({'clause': 'no_summary', 'sig': sig, 'detail': d + res.text[-600:]})
+    return viol
+
+
 def cases(tier, seed):
+    for v in (0, 2):
+        yield ['xj', v, None, None, None]
     T = 2 if tier == 'quick' else 3
     optkeys = ['x', 'x+rep', 'x+shuf1', 'x+shuf2', 'x+j2', 'x+nie', 'x+nie+rep']
     if tier == 'thorough':
@@ -117,6 +155,8 @@ def setup_worker():
 
 
 def run_case(case):
+    if case[0] == 'xj':
+        return {'evals': 1, 'nontrivial': 1, 'violations': run_xj_case(case[1]), 'outcome': 'xj', 'nogate': True}
     k, shape, counts, bad, ok = case
     spec, argv = build_spec(case)
     res = runrt.run_world(spec, argv)
